@@ -17,7 +17,7 @@ from decimal import Decimal
 
 ID = 'C13'
 PROPERTY_FILE = 'Autobean/Properties/C13.lean'
-LEAN_TARGETS = ['Autobean.Properties.C13', 'Autobean.Obligations.Codec']
+LEAN_TARGETS = ['Autobean.Properties.C13', 'Autobean.Obligations.Codec', 'Autobean.Obligations.CachesNumExpr']
 RULE = ('random expression texts (NUMBER forms incl. 1,234.5 / 7. / 007, nested parentheses, unary chains, spacing none/'
         'blank/tab/newline) parsed by the real parser, free-standing or attached inside a ledger (meta value, posting '
         'amount, cost components, price annotations, balance amount + tolerance, price, custom); chains of 1-4 '
